@@ -48,6 +48,14 @@ def bit_sets(fn):
     return out
 
 
+def case_tables(ctx, P, rid):
+    """every hash table of the grammar code (fsg_model.c) is created case-sensitive (shared with C05)"""
+    for g_ in [x for x in P.functions(U) if x.file.endswith(U)]:
+        for c_ in g_.calls("hash_table_new"):
+            ctx.touch(g_)
+            ctx.check(rid, g_.constval(g_.args(c_)[1]) == 0, key(g_, "case-sensitive-table@%d" % sum(1 for c2 in g_.calls("hash_table_new") if c2 <= c_)), g_.where(c_), "a table of the grammar code is created with case folding (`%s`): labels that differ only in letter case become one word" % g_.canon(g_.args(c_)[1], subst=False))
+
+
 def run(ctx):
     P = ctx.P
     fns = {f.name: f for f in P.functions(U) if f.file.endswith(U)}
@@ -152,9 +160,7 @@ def run(ctx):
     # word labels are compared byte for byte, as fsg_model_word_id / word_add do: every table the grammar code
     # keys by word text or by state is created case-sensitive (words that differ in letter case are different
     # labels; a folding table gives them one id and the grammar read back is not the grammar written)
-    for g_ in [x for x in P.functions(U) if x.file.endswith(U)]:
-        for c_ in g_.calls("hash_table_new"):
-            ctx.check(w2, g_.constval(g_.args(c_)[1]) == 0, key(g_, "case-sensitive-table@%d" % sum(1 for c2 in g_.calls("hash_table_new") if c2 <= c_)), g_.where(c_), "a table of the grammar code is created with case folding (`%s`): labels that differ only in letter case become one word" % g_.canon(g_.args(c_)[1], subst=False))
+    case_tables(ctx, P, w2)
     # range checks on parsed numbers (two-sided), before use
     for var in ("i", "j"):
         uses = [c for c in rd.calls({"fsg_model_trans_add", "fsg_model_null_trans_add"})]
